@@ -275,3 +275,54 @@ func ZZ_C06_sync_pool() {
 	zz.Assert(zz.Spawned() == want, "exactly the deficit to min-idle is requested, and only while the pool is below its capacity")
 	zz.Assert(zz.LockState(&m.RWMutex) == 0, "the manager lock is released")
 }
+
+// C06: an ADD served from the pool interleaved with the balancer: Allocate
+// (section 1), then Dispose(n) by the balancer, then the commit goroutine
+// (section 2), then one dispose-worker iteration.  The address handed to the
+// pod is never scheduled for unassignment and never unassigned.
+// zz:noreplay the schedule (Dispose between the two sections of an ADD) is chosen by the engine
+func ZZ_C06_allocate_vs_dispose() {
+	f := zzNewFactory(false)
+	l, slots := zzPool(2, 0, f)
+	zz.Assume(zzInv(slots))
+	me := zzPods[0]
+	ctx := zzNewCtx(false)
+	ch, _ := l.Allocate(ctx, &daemon.CNI{PodID: me}, zzNewRequest())
+	if ch == nil || zz.Spawned() != 1 || len(l.allocatingV4) > 0 {
+		zz.Reach("not-a-cache-hit")
+		return
+	}
+	l.Dispose(zz.IntRange("dispose.n", 0, 3))
+	zz.RunSpawned(0)
+	select {
+	case resp, ok := <-ch:
+		if !ok {
+			zz.Unreachable("an uncancelled ADD is answered")
+			return
+		}
+		res := resp.NetworkConfigs[0].(*LocalIPResource)
+		got := l.ipv4[res.IP.IPv4]
+		zz.Assert(got != nil && got.podID == me, "the address handed out is owned by the requesting pod")
+		zz.Assert(got == nil || got.status != ipStatusDeleting, "an address handed to a pod is never scheduled for unassignment")
+	default:
+		zz.Unreachable("the commit goroutine answers")
+		return
+	}
+	zz.Assert(l.status != statusDeleting, "an interface with an address in use is not given up")
+	wctx := zzNewCtx(false)
+	f.onCall = func(c zzCall) {
+		for _, a := range c.ips {
+			ip := l.ipv4[a]
+			zz.Assert(ip != nil && ip.podID == "", "an address a pod holds is never unassigned")
+		}
+		select {
+		case <-wctx.done:
+		default:
+			close(wctx.done)
+		}
+	}
+	zz.OnYield(func() { zz.Assume(false) })
+	l.factoryDisposeWorker(wctx)
+	zz.OnYield(nil)
+	zz.Reach("dispose-after-add")
+}
